@@ -438,6 +438,25 @@ def r10_2(chk, repo, cr):
             need = 6           # tokens[:5] are indexed unconditionally, so len != 5 is len >= 6
         chk.ob("R10.2", SX, "_parse_atom_line", "token 5 is read as the occupancy on every line that has six or more tokens (the writer's atom line "
                "has exactly six)", need == 6, fingerprint="res-occupancy-present", expected=f"len({line_p}.split()) > 5", found=str(oa[1])[:100])
+    # the records the SHELX reader produces are consumed by AsymmetricUnit.from_records: every key it asks for is a key the parser writes
+    # (a .get("occupancy", 1.0) on records that carry "occupation" always answers 1.0)
+    try:
+        au = chk.repo.module("crystal/asymmetric_unit.py")
+        fr = au.funcs.get("AsymmetricUnit.from_records")
+    except Exception:      # noqa: BLE001
+        fr = None
+    if fr is not None and r:
+        asked = set()
+        for node in ast.walk(fr):
+            if isinstance(node, ast.Subscript) and isinstance(node.slice, ast.Constant) and isinstance(node.slice.value, str) and isinstance(node.value, ast.Name):
+                asked.add(node.slice.value)
+            if isinstance(node, ast.Call) and isinstance(node.func, ast.Attribute) and node.func.attr == "get" and isinstance(node.func.value, ast.Name) \
+                    and node.args and isinstance(node.args[0], ast.Constant) and isinstance(node.args[0].value, str):
+                asked.add(node.args[0].value)
+        chk.saw("crystal/asymmetric_unit.py", "AsymmetricUnit.from_records")
+        chk.ob("R10.2", "crystal/asymmetric_unit.py", "AsymmetricUnit.from_records", "every key read from an atom record is a key the SHELX atom-line "
+               "parser writes (label, element, position, occupation)", bool(asked) and asked <= set(r), fingerprint="record-keys",
+               expected=sorted(r), found=sorted(asked - set(r)) or sorted(asked))
     # CELL
     cv = sx.ev("_parse_cell")
     rc = dict_items(cv.returns[0].value)
